@@ -49,9 +49,12 @@ DOCS = [
     # cross-file parser state: a definition in a failing file must not reach the files after it
     "[api]: /url 'title'\n[other]: /o\n\nuses [api] and [other]   \n",
     "see [ api ] and [api] and [other][] here   \nmore\ttext\n",
+    # cross-file rule state: a rule interrupted inside a container must start the next file from its reset state
+    "- a\n  - b\n    - c\n  - d\n- e\n",
+    "> - q\n>   - r\n>\n> 1. s\n>    - t\n\ntext\n",
 ]
 N_LEGACY_DOCS = 12
-EXTRA_TRIPLES = [[12, 13, 0], [13, 12, 13], [12, 1, 13], [5, 12, 13]]
+EXTRA_TRIPLES = [[12, 13, 0], [13, 12, 13], [12, 1, 13], [5, 12, 13], [8, 14, 15], [14, 15, 14], [6, 14, 8], [15, 14, 1]]
 P_KINDS = [("scan-only", False, 0), ("fix0", True, 0), ("fix2", True, 2)]
 MAX_K = 90
 MAX_J = 9
@@ -313,6 +316,10 @@ def run_fault_case(ci, case, sb, app, reclog, R):
                         v.add(f"{tag}:other-file-reports-differ")
                     if after[n] != sb.read(n):
                         v.add(f"{tag}:other-file-bytes-differ")
+                    # an error reported for a file other than the failing one, which the run without the failing file does not report
+                    if n in o.errtext and n not in o2.errtext:
+                        v.add(f"{tag}:other-file-error-reported")
+                        detail["stderr_without_failing_file"] = o2.errtext[:300]
     if v:
         return [";".join(sorted(v)), detail]
     if len(R.samples) < 2 and reached:
